@@ -352,6 +352,7 @@ def eval_rprint(triples, tier, rng):
         if not o2.startswith('(ok'):
             bad('which does not parse back (%s)' % o2[:80], 'rprint-reparse'); continue
         st2 = dec_range(parse(o2)[1])
+        if is_any: continue     # Range::any() prints `*`, which is `>=0.0.0`: not reachable by parse and set operations, outside the property
         if strip_build_struct(st2) == strip_build_struct(st): dist['reparsed_equal_structure'] += 1
         elif from_parse:
             bad('which parses to a different range: %s instead of %s' % (show_struct(st2), show_struct(st)), 'rprint-struct'); continue
